@@ -8,22 +8,27 @@ Local Open Scope Z_scope.
 Lemma const_is_true : forall e k, const_is e k = true -> e = CConst k.
 Proof. destruct e; simpl; intros; try discriminate. f_equal. lia. Qed.
 
+Lemma is_const_true : forall e, is_const e = true -> exists v, e = CConst v.
+Proof. destruct e; simpl; intros; try discriminate. eauto. Qed.
+
+(** case analysis follows the tests of the code, not the shape of the operands *)
+Ltac use_tests :=
+  repeat match goal with
+         | H : const_is ?e ?k = true |- _ => apply const_is_true in H; subst e
+         | H : is_const ?e = true |- _ => apply is_const_true in H; destruct H as [? ->]
+         | H : _ && _ = true |- _ => apply andb_true_iff in H; destruct H
+         end.
+
 Ltac break_if :=
   match goal with
-  | |- context [if ?c then _ else _] => destruct c eqn:?
+  | |- context [if ?c then _ else _] => destruct c eqn:?; use_tests
   end.
-
-Ltac one_is_one :=
-  repeat match goal with
-         | H : (?c =? 1) && _ = true |- _ => assert (c = 1) by lia; clear H; subst c
-         | H : (?c =? 1) = true |- _ => assert (c = 1) by lia; clear H; subst c
-         end.
 
 Ltac finish_simpl Sl Sr Fl Fr :=
   eexists; split; [reflexivity|]; split; [|split];
   [ simpl in *; repeat (apply andb_true_iff; split); auto; lia
   | intros rho sg; specialize (Sl rho sg); specialize (Sr rho sg); simpl in *;
-    try rewrite <- Sl; try rewrite <- Sr; simpl; one_is_one;
+    try rewrite <- Sl; try rewrite <- Sr; simpl;
     try rewrite Z.div_1_r; try (rewrite Z.div_0_l by lia); lia
   | intros rho sg HF; simpl in HF; destruct HF as (HF1 & HF2 & HFn);
     specialize (Fl rho sg HF1); specialize (Fr rho sg HF2);
@@ -43,26 +48,28 @@ Proof.
   - simpl in Hwf.
     apply andb_true_iff in Hwf as [Hwf Hop]. apply andb_true_iff in Hwf as [Ha Hb].
     destruct (IHe1 Ha) as (l & El & Wl & Sl & Fl). destruct (IHe2 Hb) as (r & Er & Wr & Sr & Fr).
-    cbn [simplify_cir]. rewrite El, Er.
+    cbn [simplify_cir]. rewrite El, Er. clear IHe1 IHe2.
     destruct op.
-    + destruct l, r; cbn -[Z.mul Z.add Z.sub Z.div Z.modulo];
-        repeat (break_if; cbn -[Z.mul Z.add Z.sub Z.div Z.modulo]); try discriminate; try lia;
-        try (finish_simpl Sl Sr Fl Fr).
-    + destruct l, r; cbn -[Z.mul Z.add Z.sub Z.div Z.modulo];
-        repeat (break_if; cbn -[Z.mul Z.add Z.sub Z.div Z.modulo]); try discriminate; try lia;
-        try (finish_simpl Sl Sr Fl Fr).
-    + destruct l, r; cbn -[Z.mul Z.add Z.sub Z.div Z.modulo];
-        repeat (break_if; cbn -[Z.mul Z.add Z.sub Z.div Z.modulo]); try discriminate; try lia;
-        try (finish_simpl Sl Sr Fl Fr).
+    + cbn [cop_eqb orb andb]; repeat (break_if; cbn -[Z.mul Z.add Z.sub Z.div Z.modulo]);
+        try discriminate; finish_simpl Sl Sr Fl Fr.
+    + cbn [cop_eqb orb andb]; repeat (break_if; cbn -[Z.mul Z.add Z.sub Z.div Z.modulo]);
+        try discriminate; finish_simpl Sl Sr Fl Fr.
+    + cbn [cop_eqb orb andb]; repeat (break_if; cbn -[Z.mul Z.add Z.sub Z.div Z.modulo]);
+        try discriminate; finish_simpl Sl Sr Fl Fr.
     + (* / : the divisor is a positive literal *)
       destruct e2; try discriminate. simpl in Er. inversion Er; subst r. clear Er.
-      destruct l; cbn -[Z.mul Z.add Z.sub Z.div Z.modulo]; unfold pydiv;
-        repeat (break_if; cbn -[Z.mul Z.add Z.sub Z.div Z.modulo]); try discriminate; try lia;
-        try (finish_simpl Sl Sr Fl Fr).
+      assert (Hv : 0 < v) by lia. assert (Hv0 : (v =? 0) = false) by lia.
+      cbn [cop_eqb orb andb is_const const_is]; rewrite ?andb_true_r, ?Hv0;
+        repeat (break_if; cbn -[Z.mul Z.add Z.sub Z.div Z.modulo]); unfold pydiv; rewrite ?Hv0;
+        try discriminate;
+        repeat match goal with H : (?c =? 1) = true |- _ => assert (c = 1) by lia; clear H; subst c end;
+        finish_simpl Sl Sr Fl Fr.
     + destruct e2; try discriminate. simpl in Er. inversion Er; subst r. clear Er.
-      destruct l; cbn -[Z.mul Z.add Z.sub Z.div Z.modulo]; unfold pymod;
-        repeat (break_if; cbn -[Z.mul Z.add Z.sub Z.div Z.modulo]); try discriminate; try lia;
-        try (finish_simpl Sl Sr Fl Fr).
+      assert (Hv : 0 < v) by lia. assert (Hv0 : (v =? 0) = false) by lia.
+      cbn [cop_eqb orb andb is_const const_is]; rewrite ?andb_true_r, ?andb_false_r, ?Hv0;
+        repeat (break_if; cbn -[Z.mul Z.add Z.sub Z.div Z.modulo]); unfold pymod; rewrite ?Hv0;
+        try discriminate;
+        finish_simpl Sl Sr Fl Fr.
   - simpl in Hwf. destruct (IHe Hwf) as (a & Ea & Wa & Sa & Fa).
     cbn [simplify_cir]. rewrite Ea.
     destruct a; cbn -[Z.opp]; eexists; (split; [reflexivity|]); (split; [auto|]); (split;
